@@ -375,6 +375,49 @@ impl<M> Common<M> {
     }
 }
 
+#[cfg(hecs_verif)]
+impl<M> Common<M> {
+    fn verif_dump(&self) -> crate::verif::ArenaDump {
+        crate::verif::ArenaDump {
+            base: self.storage.as_ptr() as usize,
+            layout_size: self.layout.size(),
+            layout_align: self.layout.align(),
+            cursor: self.cursor,
+            slots: self
+                .info
+                .iter()
+                .map(|(ty, offset, _)| (ty.id(), ty.layout().size(), ty.layout().align(), *offset))
+                .collect(),
+            indices: self.indices.iter().map(|(k, v)| (*k, *v)).collect(),
+            cmds: Vec::new(),
+        }
+    }
+}
+
+#[cfg(hecs_verif)]
+impl EntityBuilder {
+    /// Snapshot of the builder's arena bookkeeping
+    pub fn verif_dump(&self) -> crate::verif::ArenaDump {
+        self.inner.verif_dump()
+    }
+}
+
+#[cfg(hecs_verif)]
+impl EntityBuilderClone {
+    /// Snapshot of the builder's arena bookkeeping
+    pub fn verif_dump(&self) -> crate::verif::ArenaDump {
+        self.inner.verif_dump()
+    }
+}
+
+#[cfg(hecs_verif)]
+impl BuiltEntityClone {
+    /// Snapshot of the bundle's arena bookkeeping
+    pub fn verif_dump(&self) -> crate::verif::ArenaDump {
+        self.0.verif_dump()
+    }
+}
+
 unsafe impl<M> Send for Common<M> {}
 unsafe impl<M> Sync for Common<M> {}
 
